@@ -967,8 +967,14 @@ impl Gen {
                 Op::Collect { a, op, fault }
             }
             2 => {
-                let body = self.gen_body(ex, a, false, true);
-                Op::Finalize { a, via_mark_debt: self.rng.chance(1, 4), body, fault: 0 }
+                let mut body = self.gen_body(ex, a, false, true);
+                // the finalize callback may panic too (and the marking call before it may fault)
+                if self.cfg.faults && self.rng.chance(1, 8) {
+                    let at = self.rng.below(body.len() + 1);
+                    body.insert(at, MOp::Panic);
+                }
+                let fault = if self.cfg.faults && self.rng.chance(1, 10) { 1 + self.rng.below(12) as u32 } else { 0 };
+                Op::Finalize { a, via_mark_debt: self.rng.chance(1, 4), body, fault }
             }
             3 => Op::Audit { a },
             4 => {
